@@ -93,8 +93,33 @@ package signature
 //@   logged
 //@   ensures err == nil ==> (forall k :: 0 <= k && k < len(result1) ==> result1[k] != nil)
 
+// ---- envelope.go: the registry. sync.Map is opaque; its content is the abstract (SyncHas, SyncVal) view below.
+// stmt C09 (registry part): whatever media type string is asked for, the lookup yields an error or a pair of non-nil
+// constructor functions - the type assertion on the stored value cannot fail
+//@ import "sync"
+//@ abstract func SyncHas(m sync.Map, k any) bool
+//@ abstract func SyncVal(m sync.Map, k any) any
+//@ axiom forall k any :: !SyncHas(zero(type(sync.Map)), k)
+//@ extern func (*sync.Map).Store(m, key, value)
+//@   requires m != nil
+//@   modifies *m
+//@   ensures forall k any :: (SyncHas(*m, k) <==> (k == key || old(SyncHas(*m, k)))) && (k != key ==> SyncVal(*m, k) == old(SyncVal(*m, k)))
+//@   ensures SyncVal(*m, key) == value
+//@ extern func (*sync.Map).Load(m, key)
+//@   requires m != nil
+//@   ensures result1 <==> SyncHas(*m, key)
+//@   ensures result1 ==> result0 == SyncVal(*m, key)
+//@ global-invariant [registry] forall k any :: SyncHas(envelopeFuncs, k) ==> typeof(SyncVal(envelopeFuncs, k)) == type(envelopeFunc) && unbox(SyncVal(envelopeFuncs, k), type(envelopeFunc)).newFunc != nil && unbox(SyncVal(envelopeFuncs, k), type(envelopeFunc)).parseFunc != nil
+
 //@ func RegisterEnvelopeType(mediaType, newFunc, parseFunc)
+//@   modifies global envelopeFuncs
 //@   ensures [ok] (newFunc != nil && parseFunc != nil) <==> result == nil
+//@   ensures [ok=>registered] result == nil ==> SyncHas(envelopeFuncs, box(mediaType)) && unbox(SyncVal(envelopeFuncs, box(mediaType)), type(envelopeFunc)).newFunc == newFunc && unbox(SyncVal(envelopeFuncs, box(mediaType)), type(envelopeFunc)).parseFunc == parseFunc
+//@ func NewEnvelope(mediaType)
+//@   ensures [unknown] !SyncHas(envelopeFuncs, box(mediaType)) ==> result == nil && typeof(err) == type(*UnsupportedSignatureFormatError)
+//@   ensures [known] SyncHas(envelopeFuncs, box(mediaType)) ==> err == nil
+//@ func ParseEnvelope(mediaType, envelopeBytes)
+//@   ensures [unknown] !SyncHas(envelopeFuncs, box(mediaType)) ==> result == nil && typeof(err) == type(*UnsupportedSignatureFormatError)
 
 // ---- signer.go
 //@ import "crypto/rsa"
